@@ -49,15 +49,21 @@ theorem keeps_pythiaStage (cfg : Cfg) (op0 : SugOp) (need : Nat) (out : List Tri
   · split
     · simp
     · rw [keeps_createStage]; simp
+theorem keeps_suggestRest (cfg : Cfg) (op0 : SugOp) (c : String) (n : Nat) (alg : AlgOutcome) (st : Study) :
+    keyOf (suggestRest cfg op0 st c n alg).2 = keyOf st := by
+  simp only [suggestRest]
+  split
+  · simp
+  · split
+    · simp
+    · rw [keeps_pythiaStage]; simp
 theorem keeps_suggest (cfg : Cfg) (c : String) (n : Nat) (alg : AlgOutcome) : KeepsKey fun st => suggestBody cfg st c n alg := by
   intro st; simp only [suggestBody]
   split
-  · rfl
   · split
-    · simp; rfl
-    · split
-      · simp; rfl
-      · rw [keeps_pythiaStage]; simp; rfl
+    · exact keeps_suggestRest cfg _ c n alg st
+    · rfl
+  · rw [keeps_suggestRest]; rfl
 theorem keeps_esCompute (cfg : Cfg) (id : Nat) (es : EsOutcome) (st : Study) :
     keyOf (esCompute cfg st id es).2 = keyOf st := by
   simp only [esCompute]
